@@ -111,8 +111,22 @@ func compileBatches(in io.Reader, codec *dnsdata.Codec, destPath string, opts Co
 		batchSize = DefaultBatchSize
 	}
 
-	limiter := make(chan struct{}, opts.BatchNumParallel)
-	defer close(limiter)
+	// BatchNumParallel <= 0 means "unlimited": no limiter at all (an unbuffered
+	// channel would block the first full batch forever)
+	var limiter chan struct{}
+	if opts.BatchNumParallel > 0 {
+		limiter = make(chan struct{}, opts.BatchNumParallel)
+	}
+	acquire := func() {
+		if limiter != nil {
+			limiter <- struct{}{}
+		}
+	}
+	release := func() {
+		if limiter != nil {
+			<-limiter
+		}
+	}
 
 	db, err = NewRDB(destPath)
 	if err != nil {
@@ -148,13 +162,12 @@ func compileBatches(in io.Reader, codec *dnsdata.Codec, destPath string, opts Co
 				counter = 0
 				log.Println(nw)
 				b := rdbBatch
-				limiter <- struct{}{}
+				acquire()
 				g.Go(func() error {
+					defer release()
 					if err := db.ExecuteBatch(b); err != nil {
-						<-limiter
 						return fmt.Errorf("error executing batch: %w", err)
 					}
-					<-limiter
 					return nil
 				})
 				rdbBatch = db.CreateBatch()
